@@ -252,6 +252,28 @@ PROPS["C05"] = dict(
                "ACK that arrived before the silence restarts the timer; timing clauses are not asserted after a fast retransmit (the statement's 'otherwise')",
 )
 
+PROPS["C14"] = dict(
+    engine="netsim", level="exploration",
+    quick=dict(runs=24000, workers=16, stall_s=180, variants=["tcpab", "tcpab", "window", "recovery"]),
+    thorough=dict(budget_s=900, workers=16, stall_s=300, variants=["tcpab", "tcpab", "window", "recovery"]),
+    rule="the C01, C04 and C05 scenarios re-run with initial sequence numbers forced (not merely swarmed) so that the stack's own ISS (placed through the "
+         "pkg/rand seam), the passive side's ISS (SYN-cookie constant measured in a pre-pass) or the scripted peer's ISS lies 0..60000 below 2^31 or "
+         "2^32, i.e. the SYN, the first data byte, retransmitted segments, SACK blocks, window edges and the FIN straddle the boundary in some run; "
+         "oracles are exactly those of C01/C04/C05; non-trivial as in the underlying scenario; distinct = distinct event-log hash",
+    expected_probes=["segment_straddles_2^31", "segment_straddles_2^32", "sack_block_straddles_2^32", "own_stream_crossed_2^31", "own_stream_crossed_2^32",
+                     "peer_stream_crossed_2^31", "peer_stream_crossed_2^32", "retransmission_seen", "fast_retransmits"],
+    real=NET_REAL, stubs=NET_STUBS + PEER_STUB, assumptions=NET_ASSUME + [
+        "only the second sentence of the property (every TCP property holds unchanged when initial sequence numbers sit just below 2^31 or 2^32) is "
+        "decided; the first sentence - the arithmetic functions give the serial-number answer for all operand tuples - is a pure function of its input "
+        "and outside what a simulation can address (DESIGN.md sections 6 and 7)"],
+    hang_is_violation=True,
+    level_text="seeded search with forced ISS placement: the behavioural consequence of correct modulo-2^32 arithmetic (stream integrity, window and MSS "
+               "compliance, loss recovery and congestion window) is checked while data, retransmissions, SACK blocks and window edges cross the wrap "
+               "points; evidence counts how many runs actually crossed each boundary (reach probes taken from the wire); evidence, not proof",
+    level_note="restricted to the second sentence of the statement; C02's liveness oracle is not re-run here (its known findings are independent of where the "
+               "sequence space starts)",
+)
+
 PENDING = "check not built yet (work in progress; will be claimed once its simulation exists)"
 NOT_APPLICABLE = {
     "C15": "pure functions of their input (header codecs, RFC 1071 checksum): no schedule, clock, fault, I/O or second party for a simulator to control; "
